@@ -127,6 +127,9 @@ type suiteRun struct {
 	results map[string]bool // short name -> passed
 	msgs    map[string][]string
 	fired   map[string]bool // short name -> the injected server fault manifested during the test
+	// state of the faulty-server wrappers
+	firstParams   *spb.SessionParameters
+	modifyStreams []*faultyModify
 }
 
 func (sr *suiteRun) netFor(noFwd bool) *simnet.Net {
@@ -209,7 +212,7 @@ func runSuite(e *env) {
 				passed = append(passed, n)
 			}
 		}
-		e.report("C19", "violation-not-flagged", "faulty server ("+sr.fault+") passed a test that asks for exactly the withheld data", fmt.Sprintf("designated tests in which the fault manifested and which passed: %v", passed), false)
+		e.report("C19", "violation-not-flagged", "faulty server ("+sr.fault+") passed a test written for exactly the requirement it breaks", fmt.Sprintf("designated tests in which the fault manifested and which passed: %v", passed), false)
 	}
 	e.probe("fault " + sr.fault + ": flagged")
 }
@@ -222,6 +225,7 @@ func (sr *suiteRun) runTest(tt *compliance.TestSpec) {
 	c.Connection().WithStub(n)
 	sc := fluent.NewClient()
 	sc.Connection().WithStub(n)
+	sr.firstParams, sr.modifyStreams = nil, nil // wrapper state is per test (every session of the previous test is gone)
 	firedBefore := e.sim.Faults["srv-fault:"+sr.fault]
 	done := false
 	simrt.Go("compliance-test", func() {
